@@ -210,8 +210,12 @@ func Combine(off1, off2 uint64) (result uint64, oldoff uint64) {
 	switch ops {
 	case add_update: // => add
 		result = off2 & Mask
+		oldoff = off1 & Mask
 	case add_delete: // => <nil>
 		result = 0 // => should be removed
+		oldoff = off1 & Mask
+		// oldoff is so tran.Update/Delete can detect a stale record
+		// when the record was added (or added then updated) in the same buffer
 	case update_update: // => update
 		result = off2
 		oldoff = off1 & Mask
